@@ -6,8 +6,12 @@ CONSTANTS
   FixSend = TRUE
   FixReader = TRUE
   Banned = {}
+  Asking = {}
+  AskAnswersInHand = TRUE
+  BufCap = 3
   FixFlushOnStop = TRUE
   MaxResets = 1
   WithStop = TRUE
   Det = TRUE
+  FaultPoints = {"any", "reader-holds-reply", "writer-handoff", "writer-got", "sender-checked", "sender-after-drain", "queues-loaded", "reader-paired"}
 CHECK_DEADLOCK FALSE
